@@ -295,6 +295,9 @@ def c11(tier):
         tg = r.choice(["{a}", "{abc}", "{a1,b2}"])
         # tight boxes too: the tag touches the walls of its box
         tagged.append(gen.box(len(tg) + r.choice([0, 0, 1, 3, 6]), r.randint(1, 3), r.choice(["sharp", "round", "uni"]), tg))
+        wd = len(tg) + r.choice([0, 2, 4])
+        # a box whose top edge is drawn with underscores: the tag sits in the first row under it
+        tagged.append(" " + "_" * wd + "\n|" + tg.ljust(wd) + "|\n|" + "_" * wd + "|")
     groups = []
     tagged_set = set(tagged)
     for t in corpus + tagged:
@@ -379,7 +382,7 @@ def c12(tier):
                 "{0.5, 8, 37.5}; the model part: the same predicate as invariant of Pipeline.tla on all small grids. "
                 "non-trivial = non-empty document")
     r = common.rng("C12")
-    cfg = write_cfg("MC_C12", {"W": 3, "H": 2, "Alphabet": tla_set([32, 45, 124, 43, 46, 96, 95])},
+    cfg = write_cfg("MC_C12", {"W": 3, "H": 2, "Alphabet": tla_set([32, 45, 124, 46, 95] if tier == "quick" else [32, 45, 124, 43, 46, 96, 95])},
                     ["ModelC12", "ModelC09"])
     run.model("MC_Doc", cfg)
     # one test per transition of the glyph tables: every modelled character with at most K neighbours
@@ -399,7 +402,7 @@ def c12(tier):
     run.notes["neighbourhood_grids"] = nb
     run.validate()
     from . import stages
-    stages.conformance(run, [rows_text(b["rows"]) for b in common.tla_json_strings(resn["lines"], "REPLAY")][:4000 if tier == "quick" else 150000])
+    stages.conformance(run, [rows_text(b["rows"]) for b in common.tla_json_strings(resn["lines"], "REPLAY")][:2000 if tier == "quick" else 150000])
     # the whole conversion on the model (Stages!FullDoc: legend split, rows, unquote, spans, quoted texts, canvas):
     # every text of a small grid over an alphabet with the double quote and a wide character, followed by one of
     # seven legend tails; replayed: same elements, same canvas, same rules
@@ -621,7 +624,7 @@ def c15(tier):
         for _ in range(h):
             a, b = "", ""
             for _seg in range(r.randint(0, 3)):
-                pre = gen.random_grid(r, r.randint(0, 6), 1, gen.ASCII_DRAW.replace("\\", "") + "ab", r.choice([0.3, 0.8]))
+                pre = gen.random_grid(r, r.randint(0, 6), 1, gen.ASCII_DRAW.replace("\\", "") + "ab" + ("─│┌é一д" if i % 2 else ""), r.choice([0.3, 0.8]))
                 content = "".join(r.choice(content_alpha) for _ in range(r.randint(0, 8))).replace("\\", "/")
                 wcells = sum(2 if c in gen.WIDE else 1 for c in content)
                 a += pre + '"' + content + '"'
@@ -653,6 +656,9 @@ def sink_cases(r, n, marker_prefix="mk"):
         pay = r.choice(PAYLOADS).replace("MK", marker)
         if marker not in pay:
             pay = pay + marker
+        if i % 3 == 0:
+            # multi-byte characters in front of the payload, in the same run
+            pay = r.choice(["éééééééééééé", "привет", "жжжжжжжжж;", "ßßßßßßßßßßßßßßßßßßßß"]) + pay
         chan = ["plain", "quoted", "tag", "legend_name", "legend_decl"][i % 5]
         art = r.choice(["", gen.box(r.randint(2, 8), 1), gen.random_grid(r, 8, 2, "-|+/\\*o. ", 0.5), "o-->"])
         exp_t, exp_s = [], []
@@ -1062,7 +1068,10 @@ def c14(tier):
                     continue
                 k, n = r.randint(0, 5), r.randint(0, 3)
                 row = " " * k + {"start": ch + "-" * L, "end": "-" * L + ch, "mid": "-" * L + ch + "-" * L}[pos]
-                cases.append(("\n" * n + row, "C14bullet", "bullet", {"ch": ord(ch), "pos": pos, "len": L, "k": k, "n": n}))
+                cases.append(("\n" * n + row, "C14bullet", "bullet", {"ch": ord(ch), "pos": pos, "len": L, "k": k, "n": n, "dir": "h"}))
+                col = {"start": ch + "|" * L, "end": "|" * L + ch, "mid": "|" * L + ch + "|" * L}[pos]
+                cases.append(("\n" * n + "\n".join(" " * k + c_ for c_ in col), "C14bullet", "bullet",
+                              {"ch": ord(ch), "pos": pos, "len": L, "k": k, "n": n, "dir": "v"}))
     ws = range(1, 13) if tier == "quick" else range(1, 31)
     hs = range(1, 7) if tier == "quick" else range(1, 16)
     for w in ws:
@@ -1266,7 +1275,9 @@ def c18(tier):
     cfg = simple_cfg("MC_C18", {}, ["AssembleOrder", "SwitchesIndependent"])
     run.model("MC_Assemble", cfg)
     corpus = [t for t in gen.mixed_corpus(r, n) if t.strip()]
-    corpus += [gen.box(8, 1, "sharp", "{a}") + "\n# Legend:\na = {fill:red}\n", "o-->*\n# Legend:\nx={stroke:blue}"]
+    corpus += [gen.box(8, 1, "sharp", "{a}") + "\n# Legend:\na = {fill:red}\n", "o-->*\n# Legend:\nx={stroke:blue}",
+               '\n   "hello  world"\n', '"only quoted"', '"label"\n# Legend:\nb = {fill:blue}\n', "# Legend:\nc = {x:y}\n",
+               '  "q1" "q2"\n\n "q3"']
     groups = []
     cols = ["red", "#00ff00", "rgb(1,2,3)", "blue", "none", "x\"y", "it's"]
     for t in corpus:
